@@ -200,9 +200,11 @@ def fileformat_from_path(path) -> Optional[str]:
         if name.endswith(ext):
             name = name[: -len(ext)]
             break
-    if name.endswith((".fasta", ".fa", ".fna")):
+    # Same extensions as dnaio recognizes, so that the result does not depend
+    # on whether dnaio gets to see the file name
+    if name.endswith((".fasta", ".fa", ".fna", ".csfasta", ".csfa")):
         return "fasta"
-    if name.endswith((".fastq", ".fq")):
+    if name.endswith((".fastq", ".fq", "_sequence.txt")):
         return "fastq"
     return None
 
